@@ -1170,3 +1170,8 @@ BENIGN += [
     {"name": "statement-lines-wrapped-in-list", "file": T, "old": _STMT_COMP,
      "new": _stmt_loop('            lines = [f"{rate_sym}[{ridx}] = {rateexpr};"]\n            if trange:\n                lines = [f"if ({trange}) {{", *lines, "}"]\n            assign = "\\n".join(lines)\n')},
 ]
+BENIGN += [
+    {"name": "pairs-list-walked-by-index", "file": T, "old": _STMT_COMP,
+     "new": '        pairs = list(zip(tranges, rateexprs))\n        rateassign = []\n        for ridx in range(len(pairs)):\n            trange, rateexpr = pairs[ridx]\n'
+            '            stmt = f"{rate_sym}[{ridx}] = {rateexpr};"\n            rateassign.append(f"if ({trange}) {{\\n{stmt}\\n}}" if trange else stmt)\n'},
+]
